@@ -28,16 +28,26 @@ ASSUMPTIONS = [
     "theorems are about every client whose answers carry System NPM keys; constraint semantics is the client's "
     "(MatchingVersions) and, for aliased or bundled copies, the tabulated semver.NPM ParseConstraint/Match",
     "termination of the install loop is not proved: theorems carry resolve fuel root = Ok r",
-    "C06_unique_name and C06_lookup are stated for clients without derived packages; C06_lookup additionally for "
-    "clients without aliases and with one requirement per name (see Properties/C06.v for the refuted general form)",
+    "C06_unique_name and C06_child_key are stated for clients without derived packages (with them the unique-name "
+    "statement is false: C06_unique_name_refuted_derived; the property leaves those trees out). C06_lookup_partial "
+    "additionally needs: no aliases, MatchingVersions answers of the package asked for, one kept requirement per "
+    "name; each of the three is shown necessary by a refuted statement whose client table is replayed on the Go "
+    "resolver every run (aliases = finding F-C06-1; the other two lie outside the generated universes)",
+    "C06_complete speaks of the requirements kept by regularImports; C06_requirements_kept says exactly which those "
+    "are (not dev, not peer, not overridden by an optional sibling, not bundle content, not bundle-scoped next to a "
+    "plain sibling) and C06_complete_by_text restates completeness in those terms",
 ]
 
 MANIFEST = dict(
     category="proof",
     text=("Executable Gallina model of npm.Resolve (install tree with hoisting, protected slots, reuse, latest/deprecated "
           "pick, bundles) parametric in the client; theorems for every client and root: edges satisfy their requirement, "
-          "every regular import has an edge or a node error, every node reachable, pick rule, no panic, unique names per "
-          "directory, Node lookup lands on the edge target (the last two without derived packages). Model tied to the "
+          "every kept requirement (characterised against the property text) has an edge or a node error, every node "
+          "reachable, pick rule applied to every installed copy (freshness derived from the tree, its edge carries Selector), "
+          "no panic; without derived packages: unique names per directory and every child filed "
+          "under its own package name below its parent; Node lookup lands on the edge target without derived packages, "
+          "aliases, foreign-name answers and duplicate names, each of these four hypotheses shown necessary by a "
+          "refuted statement with a replayed witness. Model tied to the "
           "code by differential execution against the real resolver on the client table recorded from each generated "
           "universe (and on mutated tables); the six clauses are also evaluated directly on Go's graph and tree."),
     note=("Trusted: Coq 8.16.1 kernel (+vm_compute), translator gotables, extraction (ExtrOcamlBasic only) and driver.ml, "
@@ -415,6 +425,7 @@ def run(ctx):
     K = load_keys(ctx)
     classes = known_classes()
     replay_known(ctx)
+    replay_witness_cases(ctx)
     n_uni = ctx.scale(400, 30000)
     n_mut = ctx.scale(3000, 60000)
     batch = 500                       # bounded memory: universes are processed in batches
@@ -440,6 +451,16 @@ def run(ctx):
     for what in ("cycle", "diamond"):
         if not d.get("template:" + what):
             raise lib.BuildError("generator degenerate: the %s template universe did not produce a %s" % (what, what), "")
+
+
+def replay_witness_cases(ctx):
+    """the client tables behind the _refuted theorems and the Example of Properties/C06.v (coq/Resolve/Npm_cases.v
+    holds the same cases as Coq terms): the real resolver on the table client and the extracted model must agree"""
+    path = os.path.join(lib.VERIF, "harness/props/data/C06_witness_cases.txt")
+    cases = [l.strip() for l in open(path) if l.strip()]
+    impl, model = ctx.correspond("npm", cases, label="npm:witness", compare=same)
+    for x in impl:
+        ctx.count("witness:" + (parse_sx(compared(x) + ")")[0].decode() if MARK in x else x))
 
 
 MAXCALLS = [0]
